@@ -84,7 +84,12 @@ def join(terms):
         else:
             s.add(t)
     if not s:
-        return ('unit',)
+        return ('absent',)
+    if len(s) > 1:
+        # x = join(a, x): a bare recursion marker adds nothing to a join that has other members
+        s2 = {t for t in s if t[0] != 'rec'}
+        if s2:
+            s = s2
     if len(s) == 1:
         return next(iter(s))
     return ('join', frozenset(s))
@@ -364,6 +369,8 @@ class Prov:
             return ('if', base[1], self.project(base[2], how, d), self.project(base[3], how, d))
         if tag == 'match':
             return ('match', base[1], tuple((p, self.project(t, how, d)) for p, t in base[2]))
+        if tag == 'orelse':
+            return ('orelse', self.project(base[1], how, d), self.project(base[2], how, d))
         if tag == 'sel':
             return self.project(base[2], how, d)
         if tag == 'list':
@@ -401,6 +408,8 @@ class Prov:
             return ('if', base[1], self.project_field(base[2], adt, name, d), self.project_field(base[3], adt, name, d))
         if tag == 'match':
             return ('match', base[1], tuple((p, self.project_field(t, adt, name, d)) for p, t in base[2]))
+        if tag == 'orelse':
+            return ('orelse', self.project_field(base[1], adt, name, d), self.project_field(base[2], adt, name, d))
         if tag == 'sel':
             return self.project_field(base[2], adt, name, d)
         if tag == 'list':
@@ -476,7 +485,17 @@ class Prov:
 
     def ev_block(self, fn, e, env, d):
         if e.get('expr') is not None:
-            return self.eval(fn, e['expr'], env, d)
+            v = self.eval(fn, e['expr'], env, d)
+            # early-return guards: `if c { return x; }` statements before the tail expression
+            for st in reversed(e['stmts']):
+                if st['k'] != 'stmt':
+                    continue
+                x = st['e']
+                if x.get('k') == 'if' and x.get('else') is None:
+                    r = ret_expr_of(x['then'])
+                    if r is not None:
+                        v = ('if', self.eval(fn, x['cond'], env, d), ('early', self.eval(fn, r, env, d)), v)
+            return v
         # a block ending in a diverging statement
         if e['stmts']:
             last = e['stmts'][-1]
@@ -639,6 +658,8 @@ class Prov:
             return ('if', recv[1], self.map_over(recv[2], clo, d), self.map_over(recv[3], clo, d))
         if tag == 'match':
             return ('match', recv[1], tuple((p, self.map_over(t, clo, d)) for p, t in recv[2]))
+        if tag == 'orelse':
+            return ('orelse', self.map_over(recv[1], clo, d), self.map_over(recv[2], clo, d))
         return self.apply_closure(clo, [recv], d)
 
     def bind_params(self, fn, params, args, env, d):
@@ -806,9 +827,13 @@ class Prov:
             if meth == 'map_or_else':
                 dflt = self.apply_closure(dflt, [], d)
             return join([dflt, self.apply_closure(ev(argn[1]), [recv], d)])
-        if meth in ('unwrap_or_else', 'or_else', 'or_insert_with', 'get_or_insert_with') and argn:
+        if meth in ('unwrap_or_else', 'or_else') and argn:
+            return ('orelse', recv, self.apply_closure(ev(argn[0]), [], d))
+        if meth in ('unwrap_or', 'or') and argn:
+            return ('orelse', recv, ev(argn[0]))
+        if meth in ('or_insert_with', 'get_or_insert_with') and argn:
             return join([recv, self.apply_closure(ev(argn[0]), [], d)])
-        if meth in ('unwrap_or', 'or', 'chain', 'or_insert', 'get_or_insert') and argn:
+        if meth in ('chain', 'or_insert', 'get_or_insert') and argn:
             return join([recv, ev(argn[0])])
         if meth == 'zip' and argn:
             return ('tuple', (recv, ev(argn[0])))
@@ -830,7 +855,11 @@ class Prov:
         if meth == 'parse':
             return ('parsed', recv, cal.get('gargs', ''))
         if meth in BOOL_METHODS:
-            return ('op', meth, (recv,) + tuple(ev(a) for a in argn))
+            av = tuple(ev(a) for a in argn)
+            if meth in ('any', 'all', 'position', 'is_some_and', 'is_none_or') and av and av[0][0] == 'closure':
+                # keep the closure (for predicate evaluation) and its symbolic application (for origins)
+                av = av + (self.apply_closure(av[0], [recv], d),)
+            return ('op', meth, (recv,) + av)
         if meth in NEUTRAL_METHODS or meth in ('get', 'first', 'last', 'nth'):
             return recv
         if meth in MUTATOR_NAMES:
@@ -876,6 +905,21 @@ def diverges(e):
     if k == 'if':
         return e.get('else') is not None and diverges(e['then']) and diverges(e['else'])
     return False
+
+
+def ret_expr_of(block):
+    """if `block` is `{ return E; }` (possibly nested in wrappers) -> E"""
+    b = block
+    while b is not None and b.get('k') in ('wrap',):
+        b = b['e']
+    if b is None or b.get('k') != 'block':
+        return None
+    last = b.get('expr')
+    if last is None and b['stmts'] and b['stmts'][-1]['k'] == 'stmt':
+        last = b['stmts'][-1]['e']
+    if last is not None and last.get('k') == 'ret' and last.get('e') is not None and len(b['stmts']) <= 1:
+        return last['e']
+    return None
 
 
 def guards_of_stmt(st):
@@ -983,7 +1027,12 @@ def fmt_string(text):
 def subterms(t, seen=None):
     if seen is None:
         seen = set()
-    if not isinstance(t, tuple) or id(t) in seen:
+    if not isinstance(t, tuple) or not t or id(t) in seen:
+        return
+    if not isinstance(t[0], str):
+        for x in t:
+            if isinstance(x, tuple):
+                yield from subterms(x)
         return
     yield t
     for x in t:
@@ -1011,6 +1060,9 @@ def leaves(t, conds=()):
     elif tag == 'list':
         for x in t[1]:
             yield from leaves(x, conds)
+    elif tag == 'orelse':
+        yield from leaves(t[1], conds)
+        yield from leaves(t[2], conds)
     elif tag == 'absent':
         return
     elif tag == 'match':
@@ -1085,6 +1137,8 @@ def show(t, depth=0, maxd=6):
         return '%s(%s)' % (t[1], ', '.join(s(x) for x in t[2]))
     if tag == 'call':
         return '%s(%s)' % ('::'.join(t[1].split('::')[-2:]), ', '.join(s(x) for x in t[2]))
+    if tag == 'orelse':
+        return '(%s ?? %s)' % (s(t[1]), s(t[2]))
     if tag == 'early':
         return 'early(' + s(t[1]) + ')'
     return '(' + ' '.join(str(x) if not isinstance(x, tuple) else s(x) for x in t) + ')'
